@@ -134,7 +134,8 @@ class TCPSess(asyncssh.SSHTCPSession):
         pass
 
 
-def make_server(log: List[Any], gate: Gate, optstr: str):
+def make_server(log: List[Any], gate: Gate, optstr: str,
+                lazy: bool = False):
     ak = {}
     k1 = refkey('k1').openssh_public().decode()
     k2 = refkey('k2').openssh_public().decode()
@@ -171,8 +172,12 @@ def make_server(log: List[Any], gate: Gate, optstr: str):
             if username in ak:
                 self.conn.set_authorized_keys(
                     asyncssh.import_authorized_keys(ak[username]))
-            else:
+            elif not lazy:
                 self.conn.set_authorized_keys(None)
+            # lazy: the common "try: set_authorized_keys(file) except
+            # OSError: pass" pattern - nothing is installed for a user
+            # without a key file, the library must not keep the previous
+            # user's keys
             return True
 
         def password_auth_supported(self):
@@ -232,9 +237,13 @@ def run_history(case) -> CaseResult:
     conn = RefConn(ref)
     h = memwire.Harness()
     gate = Gate(h.loop, case['gated'])
-    link = RefLink(ref, {'server_factory': make_server(log, gate, optstr)},
-                   h=h)
+    link = RefLink(ref, {'server_factory': make_server(
+        log, gate, optstr, bool(case.get('lazy')))}, h=h)
+
     labels = set()
+
+    if case.get('lazy'):
+        labels.add('lazy-key-install')
     history: List[Dict[str, Any]] = []
 
     def alive():
@@ -659,6 +668,7 @@ def strategy(tier: str):
         {'k': 'pw', 'u': 'bob', 'w': 'right'}])
     return st.fixed_dictionaries({
         'gated': st.booleans(), 'opts': pick(range(len(OPTION_SETS))),
+        'lazy': st.booleans(),
         'ops': st.lists(op, min_size=0, max_size=7 if tier == 'quick'
                         else 12),
         'final': final})
@@ -840,6 +850,30 @@ def converse_strategy(tier: str):
         'cert_pty': st.booleans(), 'cert_cmd': st.booleans()})
 
 
+def switch_cases(tier: str):
+    """A user-name switch towards a user for whom the application installs
+    no keys (lazy install): whatever the first user's keys were, they must
+    not authorise the second user"""
+
+    firsts = [{'k': 'none', 'u': 'alice', 'pipeline': False},
+              {'k': 'pk', 'u': 'alice', 'key': 'k1', 'v': 'query',
+               'pipeline': False},
+              {'k': 'pw', 'u': 'alice', 'w': 'wrong', 'pipeline': False},
+              {'k': 'pk', 'u': 'bob', 'key': 'k3', 'v': 'query',
+               'pipeline': False}]
+    for first in firsts:
+        for target in ('eve', 'bob', 'alice'):
+            for key in ('k1', 'k2', 'k3'):
+                for v in ('ok', 'query'):
+                    for lazy in (True, False):
+                        for pipeline in (False, True):
+                            ops = [dict(first, pipeline=pipeline),
+                                   {'k': 'pk', 'u': target, 'key': key,
+                                    'v': v, 'pipeline': False}]
+                            yield {'gated': False, 'opts': 0, 'lazy': lazy,
+                                   'ops': ops, 'final': None}
+
+
 def race_cases(tier: str):
     """A validator gate fires in the middle of the set-up of the next
     request (every offset), which names another user"""
@@ -870,7 +904,7 @@ FAMILIES = [
            budget={'quick': 2500, 'thorough': 40000},
            required={'all': ['authenticated', 'not-authenticated',
                              'user-switch', 'pipelined', 'gate-out-of-order',
-                             'gate-armed-mid-processing',
+                             'gate-armed-mid-processing', 'lazy-key-install',
                              'restrictions-probed', 'restricted-credential',
                              'pre-auth-probe', 'pk:ok', 'pk:wrong-sid',
                              'pk:wrong-user', 'pk:wrong-service',
@@ -883,6 +917,10 @@ FAMILIES = [
            required={'all': ['cred:password', 'cred:kbdint', 'cred:key',
                              'cred:cert', 'admitted', 'refused', 'via-cert',
                              'session-opened']},
+           case_timeout=120),
+    Family('switch', run_history, enumerate=switch_cases, exhaustive=True,
+           required={'all': ['lazy-key-install', 'user-switch',
+                             'authenticated', 'not-authenticated']},
            case_timeout=120),
     Family('race', run_history, enumerate=race_cases, exhaustive=True,
            required={'all': ['gate-armed-mid-processing', 'user-switch']},
